@@ -299,9 +299,25 @@ class Program:
             return obj
         return d
 
+    def _local_binding(self, ci, expr):
+        """A base class written as a local variable of the enclosing function (`base = A if flag else B; class Op(base)`)
+        stands for the single expression that variable is bound to."""
+        seen = 0
+        while isinstance(expr, ast.Name) and isinstance(ci.parent, FuncInfo) and seen < 4:
+            binds = [st for st in ast.walk(ci.parent.node) if isinstance(st, ast.Assign) and len(st.targets) == 1
+                     and isinstance(st.targets[0], ast.Name) and st.targets[0].id == expr.id]
+            other = [n for n in ast.walk(ci.parent.node) if isinstance(n, ast.Name) and n.id == expr.id
+                     and isinstance(n.ctx, ast.Store) and not any(n is st.targets[0] for st in binds)]
+            if len(binds) != 1 or other or expr.id in ci.parent.params:
+                break
+            expr = binds[0].value
+            seen += 1
+        return expr
+
     def bases(self, ci: ClassInfo):
         out = []
         for b in ci.node.bases:
+            b = self._local_binding(ci, b)
             if isinstance(b, ast.IfExp):
                 # class Op(A if flag else B): both are possible bases; callers that
                 # need the exact one resolve the flag themselves.
